@@ -48,8 +48,9 @@ def coq_outcome(o, shared, doc=None):
         return "Rejected"
     preds = coq_list(["(%s, %s)" % (shared.s(k), coq_list([c01lib.coq_prow(r) for r in rows])) for k, rows in o["preds"].items()])
     same = doc is not None and c01lib.first_diff(doc, o["redump"]) is None
-    return "(Accepted %s %s %s %s)" % ("None" if same else "(Some %s)" % c01lib.coq_doc_with_shared(o["redump"], shared), preds,
-                                       coq_list([shared.json(x) for x in o["season"]]), coq_list([shared.json(x) for x in o["weekday"]]))
+    days = coq_list(["(%d, %d, %s, %s)" % (r[0], r[1], shared.s(r[2]), c01lib.coq_prow(r[3:])) for r in o.get("days", [])])
+    return "(Accepted %s %s %s %s %s)" % ("None" if same else "(Some %s)" % c01lib.coq_doc_with_shared(o["redump"], shared), preds,
+                                          coq_list([shared.json(x) for x in o["season"]]), coq_list([shared.json(x) for x in o["weekday"]]), days)
 
 
 def doc_sig0(case):
@@ -85,6 +86,11 @@ def process_docs(run, cases, observations, stream="docs"):
                 for sig, msg in c01lib.oracle_roundtrip(o["rt"], sig0):
                     run.violation(sig, "C01 %s (%s): %s" % (case["cls"], case["profile"], msg), case=case, observation=o["rt"],
                                   generator="c01lib.gen_doc")
+            for f in o.get("routing_fail", [])[:1]:
+                run.violation(dict(sig0, broken="day routed against the stored maps", split="/".join(sorted({k[:2] for k in doc["submodels"]}))),
+                              "C01 %s (%s): %s (month %d, weekday %d) is predicted by sub-model %s, the stored season / weekday maps "
+                              "assign %s" % (case["cls"], case["profile"], f["date"], f["month"], f["dow"], f["model_split"], f["expected"]),
+                              case=case, observation=o["routing_fail"], generator="c01lib.gen_doc")
             for f in o["closed_form_fail"]:
                 run.violation(known_corner_sig(f), "C01 %s: prediction differs from the documented formula evaluated from the stored "
                               "parameters (%s, T=%r): predicted %r, formula %r" % (case["cls"], f["shape"], f["T"], f["predicted"], f["formula"]),
@@ -93,6 +99,7 @@ def process_docs(run, cases, observations, stream="docs"):
             run.dist("docs: prediction rows compared", n_rows // 20 * 20)
             run.sample({"stream": stream, "class": case["cls"], "profile": case["profile"], "split": "__".join(doc["submodels"]),
                         "shapes": shapes, "tz": doc["info"]["baseline_timezone"], "prediction_rows": n_rows,
+                        "original": o.get("original"), "days_routed": len(o.get("days", [])),
                         "text_equal": o["rt"].get("text_equal"), "predict_sets": [(p["set"], p.get("identical")) for p in o["rt"].get("predict", [])]})
         cls = "Billing" if case["cls"] == "billing" else "Daily"
         terms.append("(%s, %s, %s)" % (cls, c01lib.coq_doc_with_shared(doc, shared), coq_outcome(o, shared, doc)))
@@ -205,7 +212,7 @@ def scale():
 def fit_jobs(run):
     r = run.rng
     if run.quick():
-        plan = [("daily", "current"), ("daily", "legacy"), ("daily", "current-dev"), ("daily", "legacy-dev"),
+        plan = [("daily", "current-weekday"), ("daily", "legacy"), ("daily", "current-dev"), ("daily", "legacy-dev"),
                 ("billing", "billing"), ("billing", "billing-season"),
                 ("hourly", "default"), ("hourly", "default-solar"), ("hourly", "robust"), ("hourly", "no-edge-bins"),
                 ("caltrack", "caltrack")]
@@ -219,7 +226,7 @@ def fit_jobs(run):
     # longest first
     order = {"caltrack": 0, "daily": 1, "hourly": 2, "billing": 3}
     jobs = [{"family": f, "profile": p, "seed": r.randrange(2**31)} for f, p in plan]
-    jobs.sort(key=lambda j: (order[j["family"]], j["profile"] not in ("current", "current-season", "current-unc")))
+    jobs.sort(key=lambda j: (order[j["family"]], not j["profile"].startswith("current")))
     return jobs
 
 
